@@ -961,8 +961,8 @@ def bt_spellings(state, with_all_D):
 def bt_class(names, styles, vals):
     """Anti-vacuity classifier: the command gives buildtype and an explicit debug/optimization that differs from what the
     buildtype implies (so a buildtype that wins is visible) -> '<spelling of buildtype>-<its position>'."""
-    if 'buildtype' not in names or len(names) < 2:
-        return None
+    if 'buildtype' not in names or len(names) < 2 or vals['buildtype'] == 'debug':
+        return None     # (buildtype=debug is the documented default and implies the default debug/optimization: counted as not visible)
     d, o = BUILDTYPE_TABLE[vals['buildtype']]
     if not (('debug' in vals and vals['debug'] != d) or ('optimization' in vals and vals['optimization'] != o)):
         return None
@@ -1848,9 +1848,10 @@ def tier_b_cases(ck):
         cs = [c for c in fam_flagged('fam_sub', 'eq', mode='bsub', names=[n for n in flaggable if BK[n]['persub']], cross=False,
                                      dict_form=False, mstr=False) if c['meta']['a'] == seed % 3]
         out += group_merge(cs, 'sub-flag', lambda c: (tuple(c['meta']['subset']), c['meta']['a']))
-    # (tier A runs all three assignments and, in the thorough tier, every default_options / machine-file state)
-    out += [c for c in fam_buildtype_top_flag(pm_max=1 if ck.thorough else 0) if c['meta']['a'] == seed % 3]
-    out += [c for c in fam_buildtype_configure(setup_states=None if ck.thorough else [[]]) if c['meta']['a'] == seed % 3]
+    # (tier A runs all three assignments and, in the thorough tier, every default_options / machine-file state; here one of the
+    # two assignments in which the command's buildtype is not `debug`, the default, which would change nothing)
+    out += [c for c in fam_buildtype_top_flag(pm_max=1 if ck.thorough else 0) if c['meta']['a'] == 1 + seed % 2]
+    out += [c for c in fam_buildtype_configure(setup_states=None if ck.thorough else [[]]) if c['meta']['a'] == seed % 2]
     out += list(fam_conf_flag(bases=None if ck.thorough else [['C']]))
     for c in out:
         c['compare_a'] = not c['scn']['langs']
